@@ -589,7 +589,7 @@ class Ctx:
       out.append(s[:160])
     return out
 
-  def model_dict(self, model=None, inputs_only=False, extra=()):
+  def model_dict(self, model=None, inputs_only=False, extra=(), generic=True):
     """name -> Fraction/int for every declared variable."""
     out = {}
     full = model
@@ -624,7 +624,8 @@ class Ctx:
         vs = [c for k, (kind, c) in self.vars.items() if kind in ("int", "real")][:14]
         # (not when a contract stub introduced existential variables: their model values are not the true exp/sqrt/cos
         # values, and generic inputs would make every observation depend on them)
-        if vs and not any(kind == "aux" for kind, _ in self.vars.values()):
+        self.last_model_generic = False
+        if generic and vs and not any(kind == "aux" for kind, _ in self.vars.values()):
           gen = z3.Solver() if (self.mixed or any("int" in c for _, c in self.pc)) else z3.Tactic("qfnra-nlsat").solver()
           gen.set("timeout", 1500)
           for e, _ in self.pc: gen.add(e)
@@ -633,7 +634,8 @@ class Ctx:
             gen.add(c != 0, c != 1, c != -1)
           for a in range(len(rv)):
             for b in range(a): gen.add(rv[a] != rv[b], rv[a] != -rv[b])
-          if str(gen.check()) == "sat": full = gen.model()
+          if str(gen.check()) == "sat":
+            full = gen.model(); self.last_model_generic = True
       except z3.Z3Exception:
         pass
     else:
@@ -1033,8 +1035,33 @@ def explore(harness, cfg, caps, hname="?"):
                                                             if ctx.claims else None,
                                       "verdict": "all obligations unsat; witness replayed natively"})
             else:
-              stats.errors.append({"why": "witness mismatch between proxy run and native run",
-                                   "bad": bad, "model": _jsonable(md), "cfg": _jsonable(cfg)})
+              # a GENERIC witness (non-zero, distinct inputs) may sit where the native float evaluation of the real code is
+              # ill-conditioned; before calling it a mismatch the plain model of the path is tried as well.  The
+              # disagreement at the generic point is kept in the evidence (counted, with a sample), not hidden.
+              retried = False
+              if getattr(ctx, "last_model_generic", False):
+                Ctx.cur = ctx
+                try: md2 = ctx.model_dict(generic=False)
+                except Exception: md2 = None
+                finally: Ctx.cur = None
+                if md2 is not None:
+                  rep2 = run_concrete(harness, cfg, md2, caps)
+                  if rep2["status"] == "ok":
+                    cobs2 = rep2["ctx"].observations
+                    ok2 = len(cobs2) == len(ctx.observations)
+                    if ok2:
+                      for (l1, v1), (l2, v2) in zip(ctx.observations, cobs2):
+                        try: sv = _obs_value(v1, {n: (c, md2.get(n)) for n, (k, c) in ctx.vars.items()})
+                        except EngineError: sv = None
+                        if l1 != l2 or not _obs_equal(sv, v2): ok2 = False; break
+                    if ok2:
+                      retried = True
+                      stats.witnesses += 1
+                      stats.maybe_infeasible += 0
+                      stats.generic_disagreements = getattr(stats, "generic_disagreements", 0) + 1
+              if not retried:
+                stats.errors.append({"why": "witness mismatch between proxy run and native run",
+                                     "bad": bad, "model": _jsonable(md), "cfg": _jsonable(cfg)})
           elif rep["status"] == "excluded":
             stats.witness_skipped += 1
           elif rep["status"] == "failed" and rep.get("native"):
